@@ -54,7 +54,7 @@ class State:
         d = frozenset()
         for (f, b), x in self.ctl.items():
             if fid is None or f == fid:
-                d |= x
+                d |= x[0]
         return d
 
 
@@ -107,6 +107,8 @@ class Interp:
         self.vn = {}
         self.entry_snap = {}
         self._cur = None
+        self.infeasible_edges = {}
+        self._pdom_cache = {}
 
     # ------------------------------------------------------------------ infrastructure
     def cfg(self, body):
@@ -125,6 +127,39 @@ class Interp:
                     inloops.setdefault(b, set()).add(h)
             self.loopinfo[body.name] = (loops, rpo, inloops)
         return c
+
+    def postdominates(self, body, cfg, a, b):
+        """post-dominance on the CFG without the edges registered as infeasible for this run (e.g. the Err edge of a
+        `?` on a formatter that cannot fail)"""
+        ign = self.infeasible_edges.get(body.name)
+        if not ign:
+            return cfg.postdominates(a, b)
+        pd = self._pdom_cache.get(body.name)
+        if pd is None:
+            from ..cfg import _dominators
+            n = cfg.n
+            virt = n
+            exits = cfg.exits()
+            succ_f = [[s for s in cfg.succ[i] if (i, s) not in ign] for i in range(n)]
+            rsucc = [[] for _ in range(n + 1)]
+            for i in range(n):
+                for s_ in succ_f[i]:
+                    rsucc[s_].append(i)
+            rsucc[virt] = list(exits)
+            rpred = [list(succ_f[i]) for i in range(n)] + [[]]
+            for e in exits:
+                rpred[e] = rpred[e] + [virt]
+            reach = {virt}
+            stack = [virt]
+            while stack:
+                x = stack.pop()
+                for s_ in rsucc[x]:
+                    if s_ not in reach:
+                        reach.add(s_)
+                        stack.append(s_)
+            pd = _dominators(n + 1, rsucc, rpred, virt, reach)
+            self._pdom_cache[body.name] = pd
+        return a in pd.get(b, ())
 
     def new_cell(self, state, v):
         cid = ("h", next(self._cell))
@@ -506,6 +541,10 @@ class Interp:
             state.kb[b] = v
         if g.get("pc"):
             state.pc = state.pc | g["pc"]
+        if g.get("deps") and self._cur is not None:
+            # being in this variant is itself a control dependence on whatever decided it
+            d = frozenset(x[1] if (isinstance(x, tuple) and len(x) == 2 and x[0] == "ctl") else x for x in g["deps"])
+            state.ctl[self._cur] = (state.ctl.get(self._cur, (frozenset(), None))[0] | d, state.ctl.get(self._cur, (None, None))[1])
         return True
 
     def guard_delta(self, before, after):
@@ -603,8 +642,9 @@ class Interp:
         ctl = dict(a.ctl)
         for k, x in b.ctl.items():
             if k in ctl:
-                if not (x <= ctl[k]):
-                    ctl[k] = ctl[k] | x
+                y = ctl[k]
+                if not (x[0] <= y[0]):
+                    ctl[k] = (y[0] | x[0], y[1])
                     changed = True
             else:
                 ctl[k] = x
@@ -705,6 +745,11 @@ class Interp:
                     new.fr[fid][l] = IntV(v.ty, None, tlo if v.lo < ov.lo else v.lo, thi if v.hi > ov.hi else v.hi, None, v.deps)
                 elif isinstance(v, VecV) and isinstance(ov, VecV) and v.elems is None:
                     new.fr[fid][l] = VecV(None, IntV("usize"), v.summary, v.elem_ty)
+        from .domain import LayoutV
+        for c, v in list(new.heap.items()):
+            ov = old.heap.get(c)
+            if isinstance(v, LayoutV) and isinstance(ov, LayoutV) and len(v.cells) > len(ov.cells):
+                new.heap[c] = LayoutV(ov.cells, True, v.issues)
         return new
 
     # ------------------------------------------------------------------ evaluation
@@ -1103,7 +1148,7 @@ class Interp:
         if state.ctl:
             cfg = self.cfgs.get(body.name)
             for k in [k for k in state.ctl if k[0] == fid and k[1] != bb]:
-                if cfg is not None and cfg.postdominates(bb, k[1]):
+                if cfg is not None and self.postdominates(body, cfg, bb, k[1]):
                     del state.ctl[k]
         for s in blk["stmts"]:
             self.steps += 1
@@ -1165,6 +1210,7 @@ class Interp:
                 if not self.refine(st, d, truth):
                     continue
                 self.note_branch(st, d, truth)
+                self._arm(st, b)
                 outs.append((b, st))
             # otherwise: the remaining truth value(s)
             rest = {True, False} - {bool(v) for v, _ in targets}
@@ -1175,6 +1221,7 @@ class Interp:
                 if not self.refine(st, d, truth):
                     continue
                 self.note_branch(st, d, truth)
+                self._arm(st, t["otherwise"])
                 outs.append((t["otherwise"], st))
             return self._merge_same_target(outs)
         if isinstance(d, IntV):
@@ -1185,7 +1232,7 @@ class Interp:
                         return [(b, state)]
                 return [(t["otherwise"], state)]
             if d.deps and self._cur is not None:
-                state.ctl[self._cur] = state.ctl.get(self._cur, frozenset()) | d.deps
+                state.ctl[self._cur] = (state.ctl.get(self._cur, (frozenset(), None))[0] | d.deps, None)
             dvals = d.values()
             for v, b in targets:
                 if v < d.lo or v > d.hi:
@@ -1202,6 +1249,7 @@ class Interp:
                     continue
                 self.note_branch(st, bv, True)
                 covered.append(v)
+                self._arm(st, b)
                 outs.append((b, st))
             # otherwise edge: feasible unless every possible value is an explicit target
             st = state
@@ -1229,6 +1277,7 @@ class Interp:
                         nz = [x for x in d.bits if x != 0]
                         if len(nz) == 1 and d.bits[0] == nz[0] and not bit_is_const(nz[0]) and nz[0] != TBIT:
                             st.guard = (nz[0], True)
+                    self._arm(st, t["otherwise"])
                     outs.append((t["otherwise"], st))
             return self._merge_same_target(outs)
         # unknown discriminant: all edges feasible
@@ -1239,8 +1288,14 @@ class Interp:
                 seen.add(b)
                 st = state.copy()
                 st.guard = None
+                self._arm(st, b)
                 outs.append((b, st))
         return outs
+
+    def _arm(self, st, target):
+        k = self._cur
+        if k in st.ctl:
+            st.ctl[k] = (st.ctl[k][0], target)
 
     def _merge_same_target(self, outs):
         res = {}
@@ -1258,7 +1313,7 @@ class Interp:
         state.guard = None
         if b.val is None and b.deps and self._cur is not None:
             k = self._cur
-            state.ctl[k] = state.ctl.get(k, frozenset()) | b.deps
+            state.ctl[k] = (state.ctl.get(k, (frozenset(), None))[0] | b.deps, None)
         if b.bit is not None and b.val is None and b.bit != TBIT and not bit_is_const(b.bit):
             state.guard = (b.bit, bool(truth))
         o = b.origin
